@@ -81,7 +81,9 @@ func cmdCheck(args []string) {
 	seed, _ := strconv.Atoi(envOr("VERIF_SEED", "0"))
 	t0 := time.Now()
 	e := setup(*repo, *verif)
-	cfg := solveCfg{outDir: filepath.Join(*verif, "out", *prop+"-"+*tier), timeoutSec: 10, par: 16}
+	// VERIF_OUT_SUFFIX: scratch-directory suffix, so that the seeded corpus can run several checks of
+	// the same property side by side (each against its own scratch worktree)
+	cfg := solveCfg{outDir: filepath.Join(*verif, "out", *prop+"-"+*tier+os.Getenv("VERIF_OUT_SUFFIX")), timeoutSec: 10, par: 16}
 	if *tier == "thorough" {
 		cfg.timeoutSec = 120
 		cfg.thorough = true
@@ -227,7 +229,7 @@ func cmdCheck(args []string) {
 
 	// report
 	exit := 0
-	replayDir := filepath.Join(*verif, "out", "replay", *prop)
+	replayDir := filepath.Join(*verif, "out", "replay", *prop+os.Getenv("VERIF_OUT_SUFFIX"))
 	os.MkdirAll(replayDir, 0o755)
 	for _, o := range violations {
 		rp := e.replay(o, all, replayDir, cfg)
